@@ -817,7 +817,7 @@ class Match(Base):
     name = "match"
 
     def cases(self, ctx, round=0):
-        cs = self.problems(ctx, round, 14 if round == 0 else 6, 60 if round == 0 else 30)
+        cs = self.problems(ctx, round, 12 if round == 0 else 6, 60 if round == 0 else 30)
         if round == 0:
             # corners: empty sets, single points, scalars
             cs.append(dict(ra1=[], dec1=[], ra2=[1.0, 2.0], dec2=[3.0, 4.0], radius=1.0, scale=1.0, depth=7,
@@ -892,7 +892,7 @@ class Variants(Base):
 
     def cases(self, ctx, round=0):
         r = ctx.rng
-        cs = self.problems(ctx, round, 5 if round == 0 else 2, 22 if round == 0 else 8)
+        cs = self.problems(ctx, round, 4 if round == 0 else 2, 22 if round == 0 else 8)
         for c in cs:
             dmax = max_depth_for(c["scale"])
             if ctx.quick():
@@ -1285,7 +1285,7 @@ class Cover(Base):
     name = "cover_contract"
 
     def cases(self, ctx, round=0):
-        cs = self.problems(ctx, round, 6 if round == 0 else 2, 26 if round == 0 else 8)
+        cs = self.problems(ctx, round, 5 if round == 0 else 2, 26 if round == 0 else 8)
         return self.prepare(ctx, cs)
 
     def impl(self, c):
@@ -1558,8 +1558,10 @@ class Watchdog:
             ent._watched = True
 
 
-def extra_theorems(ctx, module, allow, nmin, what):
-    """build C12/<module>.vo and check Print Assumptions of each of its theorems; one obligation per theorem"""
+def extra_theorems(ctx, module, allow, nmin, what, assumptions_in_quick=True):
+    """build C12/<module>.vo and check Print Assumptions of each of its theorems; one obligation per theorem.
+    assumptions_in_quick=False: in the quick tier the obligations are the successful build only (no axiom can be
+    declared in the development: grep_forbidden), Print Assumptions is run in the thorough tier."""
     thms = core.theorems_in(os.path.join(core.COQDIR, "theories", "C12", module + ".v"))
     ok, log = core.coq_make(["theories/C12/%s.vo" % module])
     ctx.checker_cmds.append("make -C coq theories/C12/%s.vo && coqc Print Assumptions <each theorem>" % module)
@@ -1570,6 +1572,10 @@ def extra_theorems(ctx, module, allow, nmin, what):
                       {"kind": "proof-build", "theorems": thms, "log_tail": log[-3000:], "no_longer_checks": what},
                       found_input=False)
         return False
+    if ctx.quick() and not assumptions_in_quick:
+        for t in thms:
+            ctx.obligation("C12.%s (built; Print Assumptions in the thorough tier)" % t, True)
+        return len(thms) >= nmin
     res, bad, raw = core.assumptions(ctx.work, "C12." + module, thms, allow)
     badthm = set(t for t, _ in bad)
     axs = set()
@@ -1590,8 +1596,10 @@ def corpus_all(entry_name):
     return corpus_cases("C12", entry_name)
 
 TRUSTED = [
-    "Coq 8.16.1 kernel (coqc, vm_compute; no native_compute).  The 19 theorems of C12/Properties.v and the 5 of "
-    "C12/TieProperties.v are closed under the global context (no axioms); the 5 of C12/SepProperties.v use only the standard "
+    "Coq 8.16.1 kernel (coqc, vm_compute; no native_compute).  The 19 theorems of C12/Properties.v, the 8 of "
+    "C12/DeepProperties.v and the 5 of C12/TieProperties.v are closed under the global context (no axioms); the 3 of "
+    "C12/SepNumProperties.v use the reals axioms plus the primitive-float specifications (two constants bounded by Interval); "
+    "the 6 of C12/SepProperties.v use only the standard "
     "library's axioms of the reals (ClassicalDedekindReals.sig_forall_dec, sig_not_dec, functional_extensionality_dep, "
     "Classical_Prop.classic); the per-case interval lemmas additionally the primitive-float/int specifications used by Interval",
     "hand-written model C12/Model.v of Matcher::init_hmap / Matcher::match (htmc.cc) and HTM.match / Matcher.match / read_pairs "
@@ -1649,7 +1657,12 @@ def run(ctx, replay=None):
     core.proof_step(ctx, "C12", core.ALLOW_DISCRETE)
     extra_theorems(ctx, "TieProperties", core.ALLOW_DISCRETE, 5,
                    "tie of C12/Model.v to the regenerated C12/Gen.v (decisions, loops, size checks, file format of the source)")
-    extra_theorems(ctx, "SepProperties", core.ALLOW_REALS, 5,
+    extra_theorems(ctx, "DeepProperties", core.ALLOW_DISCRETE, 8,
+                   "C12/DeepProperties.v (verified sort inside the model, H_cover satisfiable, history, rejections, checker decides, monitor sound, file rows meet the statement)")
+    extra_theorems(ctx, "SepNumProperties", core.ALLOW_INTERVAL, 3,
+                   "C12/SepNumProperties.v over the regenerated C12/GenR.v (cap robust to rounding with the source's pad; conditioning of the atan2 form)",
+                   assumptions_in_quick=False)
+    extra_theorems(ctx, "SepProperties", core.ALLOW_REALS, 6,
                    "C12/SepProperties.v over the regenerated C12/GenR.v (gcirc is the true separation; every point within the radius lies in the searched cap)")
     # 3. the real code against the model and the verified checker (a call that does not return is
     #    reported with its case by the watchdog)
